@@ -1,5 +1,6 @@
 /* API.set*, API.err: setters and error accessors (C15, C09 clamp).  Loop-free: mode L. */
 #include "prelude.h"
+#include "yaep_ghost.h"
 #include "yaep.c"
 #ifdef VERIF_DFCC
 void verif_error_exit (int code) { __CPROVER_assume (0); }
